@@ -101,13 +101,13 @@ const QUIESCE: usize = 3;
 struct Ctx<'a> {
     rep: &'a mut Reporter,
     case: &'a Case,
-    failed: bool,
+    failed: Vec<String>,
 }
 impl Ctx<'_> {
     fn judge(&mut self, ok: bool, site: &str, kind: &str, what: impl FnOnce() -> String) {
         self.rep.eval();
-        if !ok && !self.failed {
-            self.failed = true;
+        if !ok && !self.failed.iter().any(|k| k == kind) {
+            self.failed.push(kind.to_string());
             let sig = if self.case.family == "quorum" {
                 format!("C39|{site}|{kind}|{}", if self.case.min == self.case.max { "min==max" } else { "min<max" })
             } else {
@@ -152,7 +152,7 @@ fn check_quorum(rep: &mut Reporter, case: &Case) {
         rep.count(&format!("nontrivial/quorum_{min}_{max}"));
     }
     rep.sample(|| json!(case));
-    let mut cx = Ctx { rep, case, failed: false };
+    let mut cx = Ctx { rep, case, failed: vec![] };
     let obs = match quorum_runner(min, max)(&ticks) {
         Ok(o) => o,
         Err(p) => {
@@ -284,7 +284,7 @@ fn check_join(rep: &mut Reporter, case: &Case) {
         rep.count("nontrivial/join_resp");
     }
     rep.sample(|| json!(case));
-    let mut cx = Ctx { rep, case, failed: false };
+    let mut cx = Ctx { rep, case, failed: vec![] };
     let tr = match jr::join_resp(&ticks) {
         Ok(t) => t,
         Err(p) => {
@@ -402,14 +402,10 @@ pub fn run(args: &Args) {
         meta: vec![],
     };
     // (A) all response sequences over <= 2 keys and <= max responses per key, every composition, without and
-    // with an empty tick between chunks. Quick tier: sequences longer than 4 are sampled (1 in 6).
-    let full = args.tier == Tier::Thorough;
-    if args.tier != Tier::Miri {
+    // with an empty tick between chunks.
+        if args.tier != Tier::Miri {
         for (min, max) in MINMAX {
             for seq in sequences(max) {
-                if !full && seq.len() > 4 && !rng.chance(1, 6) {
-                    continue;
-                }
                 for comp in hv_common::compositions(seq.len()) {
                     for gap in 0..2 {
                         if gap == 1 && comp.len() < 2 {
@@ -423,7 +419,7 @@ pub fn run(args: &Args) {
     }
     // (B) random sequences over 2-5 keys, random partitions into 1-6 ticks
     for (min, max) in MINMAX {
-        for _ in 0..args.budget(1500, 30_000, 2) {
+        for _ in 0..args.budget(10_000, 300_000, 2) {
             let ticks = random_quorum_case(&mut rng, min, max);
             check_case(&mut rep, &q(min, max, ticks));
         }
@@ -470,7 +466,7 @@ pub fn run(args: &Args) {
     }
     // random: up to 6 keys over up to 6 ticks, within the contract; plus a few out-of-contract probes
     // (response before request) that are recorded, not judged.
-    for i in 0..args.budget(3000, 40_000, 2) {
+    for i in 0..args.budget(20_000, 400_000, 2) {
         let t = 2 + rng.below(5);
         let keys = 1 + rng.below(6);
         let mut ticks = vec![vec![]; t];
@@ -502,7 +498,7 @@ pub fn run(args: &Args) {
     rep.finish(
         "hydro_std collect_quorum + collect_quorum_with_response (one generated flow per (min,max), 1<=min<=max<=3) \
          and join_responses, compiled by generate_embedded. (A) every response sequence over keys {0,1} with <= max \
-         responses per key (Ok/Err each; quick tier samples 1/6 of the sequences longer than 4), under every \
+         responses per key (Ok/Err each), under every \
          composition into ticks, without and with an empty tick between chunks; (B) random sequences over 2-5 keys \
          in random partitions; (C) join_responses: every placement of request / response over 3 keys x 3 ticks \
          with request tick <= response tick (the documented contract), both key orders, plus random cases with \
@@ -511,6 +507,6 @@ pub fn run(args: &Args) {
          each once, >= min of them, in one tick, in input order; every Err is passed through once in order; each \
          response is paired with its request's metadata exactly once. Non-trivial = at least two ticks received \
          a non-empty chunk.",
-        full,
+        true,
     );
 }
